@@ -92,7 +92,7 @@ def run(ctx):
 
     def hp_prod(p):
         # a payload can reach the returned vector: something is pushed, or the returned value is not an empty vector
-        if any(callee_name(x) == "std::vector::push_back" for x in p.calls()):
+        if any(callee_name(x) in ("std::vector::push_back", "std::vector::emplace_back") for x in p.calls()):
             return True
         v = paths.returned_value(p)
         return v is not None and not paths.is_null_value(v)
@@ -153,6 +153,8 @@ def run(ctx):
             for c in cs:
                 _, calls = depends(f, c["args"][arg])
                 got = {x for x in calls if x.startswith("TECMP::") and "::get" in x and not x.endswith("::get")}
+                if f.cfg_raw:
+                    c = dict(c, args=[facts.reduce_min(f, a0, MustFacts(f).at(c)) for a0 in c["args"]])  # a clamp that cannot bind is its operand
                 if got == {row["source"]} and facts.flows_unchanged(f, c["args"][arg], row["source"]):
                     ok = True
                     lossy = facts.lossy_step(f, c["args"][arg], row["source"])
@@ -236,7 +238,7 @@ def run(ctx):
     if len(loops) == 1:
         lb, ls = loops[0]
         body = ls.get("body", {})
-        pushes = [x for x in walk(body) if x.get("k") == "call" and callee_name(x) == "std::vector::push_back"]
+        pushes = [x for x in walk(body) if x.get("k") == "call" and callee_name(x) in ("std::vector::push_back", "std::vector::emplace_back")]
         sb = [x for x in walk(body) if x.get("k") == "call" and callee_name(x) == "TECMP::InterfacePayload::setBusData"]
         why = "pushes=%d setBusData=%d" % (len(pushes), len(sb))
         if len(pushes) == 1 and len(sb) == 1:
